@@ -618,3 +618,27 @@ Definition pred_case (c : case) : option nat :=
    case without any tag must be [synced_b] in the model (the in-window characterisation that design/C14.md leaves open). *)
 Definition conj_case (c : case) : option nat :=
   if c_modelled c && negb (c_tagged c) && negb (synced_b (c_params c) (state_at c)) then Some (length (c_blocks c)) else None.
+
+(* ---- decidable hypotheses / right-hand side of C14_restart_safe_iff, evaluated on the model by the [thm] check ---------- *)
+Definition m_left (f : feeder) (b : Z) : Z := (b - f_start f) mod f_interval f.
+Definition m_isf (f : Z) (it : item) : bool := i_feeder it =? f.
+Definition thm_hyps_b (p : params) (st : state) : bool :=
+  forallb (fun f => (st_h st - 1 <? f_start f) || (m_left f (st_h st - 1) <? p_maxnonce p) ||
+                    forallb (fun e => (fst e <? st_h st - p_maxnonce p + 1) ||
+                                      match filter (m_isf (f_id f)) (snd e) with [] => true | _ => false end)
+                            (s_msgs (st_store st))) (p_feeders p).
+Definition thm_open_b (p : params) (st : state) : bool :=
+  forallb (fun f => (st_h st - 1 <? f_start f) || (p_maxnonce p <=? m_left f (st_h st - 1)) ||
+                    match aget (f_id f) (m_rounds (st_mem st)) with
+                    | Some r => r_open r || match s_vub (st_store st) with Some v => r_based r <? v | None => false end
+                    | None => true end) (p_feeders p).
+
+(* Under the hypotheses of C14_restart_safe_iff (valid params are generated) the model's [synced_b] must equal "every
+   in-window round is open" (a theorem - evaluated here as a sanity check of its statement on real restart points), and
+   when it holds the implementation's twins must agree. *)
+Definition thm_case (c : case) : option nat :=
+  if negb (c_modelled c) then None else
+  let st := state_at c in
+  if negb (thm_hyps_b (c_params c) st) then None else
+  if negb (Bool.eqb (synced_b (c_params c) st) (thm_open_b (c_params c) st)) then Some (length (c_blocks c)) else
+  if thm_open_b (c_params c) st then match monitor_case c with Some i => Some i | None => monitor_mem c end else None.
